@@ -42,7 +42,9 @@ pub fn corpus() -> &'static Corpus {
 /// run index (entries without goals are skipped deterministically).
 pub fn pick_world(rng: &mut Rng, base: u64, idx: u64, wgen_pct: u32, profile: wgen::Profile) -> World {
     if wgen::available() && rng.coin(wgen_pct) {
-        return wgen::gen_world(rng, profile);
+        // a share of every generated workload are small dense propositional programs (cycles whose head fails ...)
+        let p = if profile != wgen::Profile::Wild && rng.coin(30) { wgen::Profile::Cyc } else { profile };
+        return wgen::gen_world(rng, p);
     }
     let c = corpus();
     if profile == wgen::Profile::Fragment {
@@ -340,6 +342,34 @@ pub fn shrink_candidates(check: &str, spec: &Value) -> Vec<Value> {
             for x in p {
                 let mut c = s.clone();
                 c.points = Some(vec![*x]);
+                out.push(c);
+            }
+        }
+    }
+    // earlier perturbation points
+    if let Some(p) = &s.points {
+        if p.len() == 1 && p[0] > 1 {
+            for x in [1, p[0] / 2, p[0] - 1] {
+                if x >= 1 && x < p[0] {
+                    let mut c = s.clone();
+                    c.points = Some(vec![x]);
+                    out.push(c);
+                }
+            }
+        }
+    }
+    if let Some(p) = &s.scheds {
+        if p.len() == 1 {
+            let smaller = |k: u64| -> Vec<u64> { [1, k / 2, k.saturating_sub(1)].iter().cloned().filter(|x| *x >= 1 && *x < k).collect() };
+            let alts: Vec<Sched> = match &p[0] {
+                Sched::StopAt(k) => smaller(*k).into_iter().map(Sched::StopAt).collect(),
+                Sched::From(k) => smaller(*k).into_iter().map(Sched::From).chain(std::iter::once(Sched::StopAt(*k))).collect(),
+                Sched::Coin { .. } | Sched::Every(_) => vec![Sched::Always],
+                _ => vec![],
+            };
+            for a in alts {
+                let mut c = s.clone();
+                c.scheds = Some(vec![a]);
                 out.push(c);
             }
         }
